@@ -24,14 +24,24 @@ func hexu(s string) uint64 {
 	return v
 }
 
+// timed mode (engine argument "timed"): context definitions carry time limits, the op "T <ms>" sets the
+// clock the manager reads (only in a binary built with the clock overlay, see ctx_clock.go) and every dump
+// ends with the three Millis fields.
+var ctxTimed bool
+var setFakeClock func(uint64)
+
 func ctxDump(c rt.RuntimeContext) string {
 	h, s, u := c.HardLimits(), c.SoftLimits(), c.UsedResources()
 	due := "0"
 	if c.Due() {
 		due = "1"
 	}
-	return fmt.Sprintf("%x,%x,%x,%x,%x,%x,%x,%s,%s", h.Cpu, h.Memory, s.Cpu, s.Memory, u.Cpu, u.Memory,
+	d := fmt.Sprintf("%x,%x,%x,%x,%x,%x,%x,%s,%s", h.Cpu, h.Memory, s.Cpu, s.Memory, u.Cpu, u.Memory,
 		uint64(c.RequiredFlags()), c.Status().String(), due)
+	if ctxTimed {
+		d += fmt.Sprintf(",%x,%x,%x", h.Millis, s.Millis, u.Millis)
+	}
+	return d
 }
 
 func chainDump(r *rt.Runtime) string {
@@ -89,7 +99,16 @@ func ctxApply(r *rt.Runtime, op string) (outcome string, ret string) {
 		if f[6] == "1" {
 			def.GCPolicy = rt.IsolateGCPolicy
 		}
+		if len(f) > 8 {
+			def.HardLimits.Millis = hexu(f[7])
+			def.SoftLimits.Millis = hexu(f[8])
+		}
 		r.PushContext(def)
+	case "T":
+		if setFakeClock == nil {
+			panic("this binary has no replaceable clock")
+		}
+		setFakeClock(hexu(f[1]))
 	case "O":
 		c := r.PopContext()
 		if c != nil && fmt.Sprintf("%p", c) != "0x0" {
@@ -110,6 +129,7 @@ func ctxApply(r *rt.Runtime, op string) (outcome string, ret string) {
 }
 
 func ctxEngine(in *bufio.Scanner, out *bufio.Writer, args []string) {
+	ctxTimed = len(args) > 0 && args[0] == "timed"
 	for in.Scan() {
 		line := in.Text()
 		i := strings.IndexByte(line, ' ')
@@ -117,6 +137,9 @@ func ctxEngine(in *bufio.Scanner, out *bufio.Writer, args []string) {
 			continue
 		}
 		id, rest := line[:i], line[i+1:]
+		if ctxTimed && setFakeClock != nil {
+			setFakeClock(0)
+		}
 		r := rt.New(nil)
 		var outs []string
 		for _, op := range strings.Split(rest, ";") {
